@@ -42,15 +42,19 @@ Spell == <<
   [t |-> "| c |",           first |-> "LINE_TABLE", w |-> "", hide |-> FALSE],
   [t |-> "   + item",       first |-> "LINE_LIST_BULLETED", w |-> "item", hide |-> FALSE],
   [t |-> "[x]: y \"t\"",    first |-> "LINE_DEF_LINK", w |-> "", hide |-> TRUE],
-  [t |-> "[cap]",           first |-> "LINE_PLAIN", w |-> "cap", hide |-> FALSE] >>
+  [t |-> "[cap]",           first |-> "LINE_PLAIN", w |-> "cap", hide |-> FALSE],
+  \* a bracket followed by a parenthesis that only MultiMarkdown reads as a destination (attributes): in compatibility mode the parenthesis is text (word `wc`)
+  [t |-> "[cap](destw \"t\" key=value)", first |-> "LINE_PLAIN", w |-> "", hide |-> FALSE, wc |-> "destw"],
+  [t |-> "[cap]: http://x", first |-> "LINE_DEF_LINK", w |-> "", hide |-> TRUE] >>
 N == Len(Spell)
-Words == {Spell[i].w : i \in 1 .. N} \ {""}
+WordIn(i, compat) == IF compat /\ "wc" \in DOMAIN Spell[i] THEN Spell[i].wc ELSE Spell[i].w          \* the word spelling i shows in that mode
+Words == ({Spell[i].w : i \in 1 .. N} \cup {Spell[i].wc : i \in {j \in 1 .. N : "wc" \in DOMAIN Spell[j]}}) \ {""}
 \* (a metadata line and the blank line that ends the block may come first: what follows is judged as a document of its own)
 Body(seq) == IF Len(seq) >= 2 /\ Spell[seq[1]].t = "Key: value" /\ Spell[seq[2]].t = "" THEN SubSeq(seq, 3, Len(seq)) ELSE seq
 Readable(seq) == \A i \in 1 .. Len(Body(seq)) : ~Spell[Body(seq)[i]].hide
 \* (a bracket that ends the text of a Setext heading is that heading's label, not text)
 IsLabel(seq, i) == Spell[seq[i]].t = "[cap]" /\ i < Len(seq) /\ Spell[seq[i + 1]].t \in {"===", "---"}
-Need(seq, w) == Cardinality({i \in 1 .. Len(seq) : Spell[seq[i]].w = w /\ ~IsLabel(seq, i)})
+Need(seq, w, compat) == Cardinality({i \in 1 .. Len(seq) : WordIn(seq[i], compat) = w /\ ~IsLabel(seq, i)})
 \* ---- line by line: which lines of ANY document are still in sight ---------------------------------------------------
 \* A hiding line takes along the lines that follow it up to the next blank line (an HTML block, a definition and its lazy continuation, the metadata
 \* block at the top); a comment may stay open across blank lines; indented lines after a blank line still belong to an earlier definition.
@@ -62,11 +66,11 @@ Exposed(seq, i) == /\ ~Spell[seq[i]].hide
                    /\ \A j \in 1 .. (i - 1) : Txt(seq, j) # "<!--"
                    /\ ~(Txt(seq, i) \in {"\ttabbed", "    spaced"} /\ \E j \in 1 .. (i - 1) : IsDef(seq, j))
                    /\ Txt(seq, 1) # "---"
-NeedExposed(seq, w) == Cardinality({i \in 1 .. Len(seq) : Spell[seq[i]].w = w /\ Exposed(seq, i) /\ ~IsLabel(seq, i)})
+NeedExposed(seq, w, compat) == Cardinality({i \in 1 .. Len(seq) : WordIn(seq[i], compat) = w /\ Exposed(seq, i) /\ ~IsLabel(seq, i)})
 \* cnt: word -> occurrences in the rendering's text (markup removed); carries: the format keeps the source text itself
 \* (metadata keys are unique: when the block at the top gives the key a second time, that value -- and the lines it lazily continues over -- is not kept anywhere)
 MetaStart(seq) == IF Spell[seq[1]].t = "---" THEN 2 ELSE 1          \* (the block may be YAML-fenced)
 DupKey(seq) == LET m == MetaStart(seq) IN Len(seq) > m /\ Spell[seq[m]].t = "Key: value" /\ \E i \in (m + 1) .. Len(seq) : Spell[seq[i]].t = "Key: value" /\ \A j \in (m + 1) .. i : Spell[seq[j]].t # ""
-Complete(seq, cnt, carries) == IF (carries /\ ~DupKey(seq)) \/ Readable(seq) THEN \A w \in Words : cnt[w] >= Need(seq, w)
-                               ELSE \A w \in Words : cnt[w] >= NeedExposed(seq, w)
+Complete(seq, cnt, carries, compat) == IF (carries /\ ~DupKey(seq)) \/ Readable(seq) THEN \A w \in Words : cnt[w] >= Need(seq, w, compat)
+                                       ELSE \A w \in Words : cnt[w] >= NeedExposed(seq, w, compat)
 =============================================================================
